@@ -10,7 +10,7 @@ use crate::opt::{landscape_strat, run_script, same_bits, Landscape, LandscapePol
 use crate::probe::Expect;
 
 pub const TITLE: &str = "The optimiser terminates normally and does the amount of work requested";
-pub const RULE: &str = "part work: steps in {0,1,2,...,5000} (small values favoured), inner_steps in {0,1,...,2*steps+1} (multiples, non-multiples, larger than steps), kT >= 0 with every cooling option, max_step_size in {0, 1e-9..1e-6 of a range of 2e6 (absolute moves 1e-3..1, never clamped)}, convergence in {None,0,1e-9,1e-3,1e9}, synthetic states (3..6 parameters on a wide range, so no move is clamped) scored by a generated landscape (concave, rippled, plateaus: converging early, late or never). Oracle: no panic; the number of proposals P (score() calls that changed a parameter) satisfies steps - min(inner,steps) < P <= steps (P = 0 when steps or inner_steps is 0) with one evaluation before and at most one after; the run with a convergence threshold is a bit-exact prefix of the run without it (same seed), and a proper prefix ends at an inner-loop boundary m >= 6 whose last six loops each improved the current score by less than the threshold (improvements recomputed from the trace at kT=0). part cli: argument vectors from a grammar of valid and invalid values (group names incl. unknown, polygon sides 0..12 and -1, LJ+polygon, trimer options incl. degenerate, replications 0..3, steps and inner-steps incl. 0, unknown potential, missing output directory, a directory in the place of the .svg file); oracle: exit 0 with both output files present and parseable, or exit != 0 with a message on stderr, never exit 101 / 'panicked at'. Non-trivial = inner does not divide steps, or steps*inner = 0, or an early exit occurred, or (cli) an invalid argument vector; distinct by hash of the case.";
+pub const RULE: &str = "part work: steps in {0,1,2,...,5000} (small values favoured), inner_steps in {0,1,...,2*steps+1} (multiples, non-multiples, larger than steps), kT >= 0 with every cooling option, max_step_size in {0, 1e-9..1e-6 of a range of 2e6 (absolute moves 1e-3..1, never clamped)}, convergence in {None,0,1e-9,1e-3,1e9}, synthetic states (3..6 parameters on a wide range, so no move is clamped) scored by a generated landscape (concave, rippled, plateaus: converging early, late or never). Oracle: no panic; the number of proposals P (score() calls that changed a parameter) satisfies steps - min(inner,steps) < P <= steps (P = 0 when steps or inner_steps is 0) with one evaluation before and at most one after; the run with a convergence threshold is a bit-exact prefix of the run without it (same seed), and a proper prefix ends at an inner-loop boundary m >= 6 whose last six loops each improved the current score by less than the threshold (improvements recomputed from the trace at kT=0). part small-scope: every configuration with steps 0..16, inner_steps 0..2*steps+1 (and 1000), kT in {0, 0.5}, convergence None or a threshold every loop meets (complete enumeration): the exact number of proposals. part cli: argument vectors from a grammar of valid and invalid values (group names incl. unknown, polygon sides 0..12 and -1, LJ+polygon, trimer options incl. degenerate, replications 0..3, steps and inner-steps incl. 0, unknown potential, missing output directory, a directory in the place of the .svg file); oracle: exit 0 with both output files present and parseable, or exit != 0 with a message on stderr, never exit 101 / 'panicked at'. Non-trivial = inner does not divide steps, or steps*inner = 0, or an early exit occurred, or (cli) an invalid argument vector; distinct by hash of the case.";
 
 pub fn assumptions() -> Vec<&'static str> {
     vec!["a CLI run that exceeds 120 s is reported as inconclusive (exit 2), not as a violation", "with max_step_size = 0 proposals cannot be told from the final validity evaluation; the count is then accepted under either reading"]
@@ -315,6 +315,60 @@ fn cli_oracle(c: &CliCase, rec: &Rec, ctx: &Ctx) -> Result<(), String> {
     Ok(())
 }
 
+/// complete enumeration of the small configurations: steps 0..=16 x inner_steps 0..=2*steps+1 (and 1000) x kT {0, 0.5} x
+/// convergence {None, a threshold every loop meets}
+fn small_scope(ctx: &Ctx, ev: &mut crate::evidence::Evidence) {
+    let land = Landscape { centre: vec![1.0, -2.0, 0.5], weights: vec![1.0, 0.5, 2.0], ripple: (0.1, 7.0), quantum: 0., invalid: None };
+    let mut m = crate::engine::Merged::default();
+    let mut failure: Option<(WorkCase, String)> = None;
+    'outer: for steps in 0u64..=16 {
+        let mut inners: Vec<u64> = (0..=(2 * steps + 1)).collect();
+        inners.push(1000);
+        for inner in inners {
+            for kt in [0.0f64, 0.5].iter() {
+                for conv in [None, Some(1e9)].iter() {
+                    let cfg = OptCfg { steps, inner, kt_start: *kt, kt_finish: None, kt_ratio: None, max_step: 1e-7, convergence: *conv, seed: steps * 1000 + inner };
+                    let c = WorkCase { cfg: cfg.clone(), n: 3, land: land.clone(), init: vec![0.3, -0.7, 1.1] };
+                    let out = run(&c, &cfg);
+                    m.evals += out.calls_during_run as u64;
+                    m.cases += 1;
+                    m.nontrivial_total += 1;
+                    m.nontrivial.insert(steps * 100_000 + inner * 10 + if *kt > 0. { 1 } else { 0 } + if conv.is_some() { 2 } else { 0 });
+                    let mut res = check_amount(&out, &cfg, "small configuration");
+                    if res.is_ok() {
+                        if let Some((p, _)) = count_work(&out) {
+                            // with a threshold every loop meets, the run ends exactly after six whole loops, or runs to the end
+                            let inner_eff = cfg.inner_eff();
+                            let full = cfg.proposals();
+                            // without a threshold: exactly the full amount; with one: the full amount, or a whole number
+                            // of inner loops that is at least six (the statement gives "more than five" as a necessary
+                            // condition for stopping, not the exact loop at which to stop)
+                            let ok = p == full || (conv.is_some() && inner_eff > 0 && p % inner_eff == 0 && p / inner_eff >= 6 && p <= full);
+                            if !ok {
+                                res = Err(format!("small configuration: {} proposals evaluated for steps = {}, inner_steps = {}, convergence = {:?} (full amount {})", p, steps, inner, conv, full));
+                            }
+                        }
+                    }
+                    if let Err(msg) = res {
+                        failure = Some((c, msg));
+                        break 'outer;
+                    }
+                }
+            }
+        }
+    }
+    *m.classes.entry("configurations".to_string()).or_insert(0) += m.cases;
+    m.samples.entry("small-scope".to_string()).or_insert_with(Vec::new).push(serde_json::json!({"steps": "0..=16", "inner_steps": "0..=2*steps+1 and 1000", "kT": [0.0, 0.5], "convergence": ["None", 1e9], "configurations": m.cases}));
+    ev.absorb_part("small-scope", &m);
+    if let Some((c, msg)) = failure {
+        crate::engine::fail_case(ctx, ev, "work", serde_json::to_value(&c).unwrap(), format!("(small-scope enumeration) {}", msg));
+    }
+}
+
 pub fn parts() -> Vec<PartDef> {
-    vec![part("work", 80_000, 1_600_000, work_strat, work_oracle), part("cli", 640, 12_000, cli_strat, cli_oracle)]
+    vec![
+        part("work", 80_000, 1_600_000, work_strat, work_oracle),
+        crate::engine::custom_part("small-scope", small_scope, |_, _, _| Err("findings of the enumeration are replayed through the work part".to_string())),
+        part("cli", 640, 12_000, cli_strat, cli_oracle),
+    ]
 }
